@@ -121,3 +121,11 @@ package sts
 //@ func InitPaths
 //@   before call mkpath assert only-configured-paths-are-resolved: arg0 == p && *p != "" && !hasprefix(*p, "s3://")
 //@   modifies everything
+
+// ---------------------------------------------------------------- configuration defaults (C10 C12)
+
+// the attributes a tag leaves out are filled in from the first tag of its source (the default tag),
+// never from a neighbour; a source inherits from the source before it
+//@ func (*ClientConf).propagate
+//@   loop 1 backedge assert tag-defaults-come-from-the-first-tag: called(reflectutil.CopyStruct) && typeis(lastarg(reflectutil.CopyStruct, 1), *TagConf) && as(lastarg(reflectutil.CopyStruct, 1), *TagConf) == entry(src.Tags[0])
+//@   modifies everything
